@@ -101,12 +101,15 @@ def build(flavour="rel", quiet=True):
             p = _run(cmd, log)
             if p.returncode != 0:
                 sys.stderr.write(p.stdout[-4000:])
-                raise SystemExit("HARNESS-ERROR: cmake configure failed (%s)" % flavour)
+                sys.stderr.write("HARNESS-ERROR: cmake configure failed (%s)" % flavour + "\n"); print("HARNESS-ERROR: cmake configure failed (%s)" % flavour, flush=True); sys.exit(2)
         p = _run(["cmake", "--build", d, "-j", "16"], log)
         if p.returncode != 0:
             sys.stderr.write(p.stdout[-6000:])
-            raise SystemExit("HARNESS-ERROR: build of %s failed (%s): the tree does not compile"
-                             % (repo(), flavour))
+            msg = ("HARNESS-ERROR: build of %s failed (%s): the tree does not compile"
+                   % (repo(), flavour))
+            sys.stderr.write(msg + "\n")
+            print(msg, flush=True)
+            sys.exit(2)
     out = {
         "dir": d,
         "flavour": flavour,
@@ -119,7 +122,7 @@ def build(flavour="rel", quiet=True):
     }
     for k in ("interrogate", "interrogate_module", "parse_file"):
         if not os.path.exists(out[k]):
-            raise SystemExit("HARNESS-ERROR: %s missing after build" % out[k])
+            sys.stderr.write("HARNESS-ERROR: %s missing after build" % out[k] + "\n"); print("HARNESS-ERROR: %s missing after build" % out[k], flush=True); sys.exit(2)
     _built[flavour] = out
     return out
 
